@@ -296,7 +296,7 @@ Inductive op :=
   | OpInvalidateExpert (e : hnode)
   | OpVarMap (m : list (Z * Z))                    (* a variable holding a map *)
   | OpSetMap (x : vid) (m : list (Z * Z))
-  | OpPerMapi (inp : hnode) (c : option cutoff) (f : bindfn)
+  | OpPerMapi (inp : hnode) (c : option cutoff) (f : bindfn) (flt : bool)
       (* incr_mapi_ / incr_mapi_cutoff on `inp` (the harness wraps it between two conversion nodes) *)
   | OpMemoNew (f : bindfn)                         (* weak_memoize_fn at top level; outer operands are node handles *)
   | OpMemoCall (m : nat) (key : Z)                 (* call it from top level: yields a node handle *)
@@ -310,7 +310,7 @@ Inductive op :=
    (Building a per-key operator goes through add_dependency too.) *)
 Definition expert_op (o : op) : bool :=
   match o with
-  | OpAddDep _ _ _ _ | OpRemoveDep _ _ | OpMakeStale _ | OpInvalidateExpert _ | OpPerMapi _ _ _ => true
+  | OpAddDep _ _ _ _ | OpRemoveDep _ _ | OpMakeStale _ | OpInvalidateExpert _ | OpPerMapi _ _ _ _ => true
   | _ => false
   end.
 
@@ -481,7 +481,7 @@ Definition step (fuel : nat) (st : istate) (o : op) : M (istate * out) :=
       modify (fun s => s <| vars := vars s ++ [Var (VMap m) None (stab_num s) (Some n) n 1 true] |>) ;;;
       mk (create_node (KVar x))
   | OpSetMap x m => var_write x (fun _ => VMap m) ;;; ret (st, OutUnit)
-  | OpPerMapi inp c f =>
+  | OpPerMapi inp c f flt =>
       (* the harness: inp.map(to map type).incr_mapi_(f).map(back to the value type);
          incr_filter_mapi_generic: Node::new (result), lhs.map_cyclic (lhs_change), result.add_dependency *)
       mk (i <- hnode_get st inp ;;
@@ -493,7 +493,7 @@ Definition step (fuel : nat) (st : istate) (o : op) : M (istate * out) :=
           result <- create_node (KExpert (length (experts s))) ;;
           lhs_change <- create_node (KMap (Clo 10 0 [EPerKeyStep pk] true) [conv_in]) ;;
           s <- get ;;
-          modify (fun s => s <| perkeys := perkeys s ++ [PerKey result lhs_change [] [] [] (handles_bindfn (handles s) f) c] |>) ;;;
+          modify (fun s => s <| perkeys := perkeys s ++ [PerKey result lhs_change [] [] [] (handles_bindfn (handles s) f) c flt] |>) ;;;
           expert_add_dependency fuel result lhs_change CbNone ;;;
           create_node (KMap (Clo 0 0 [] true) [result]))
   | OpMemoNew f => s <- get ;; memo_new (handles_bindfn (handles s) f) ;;; ret (st, OutUnit)
